@@ -73,6 +73,9 @@ fn build(tier: Tier) -> Vec<Scenario> {
                     &ORDERS3[..if tier == Tier::Quick { 1 } else { 3 }],
                     String::new(),
                 );
+                // the job graph (for "every host that runs the failed replica or anything
+                // downstream of it"): derived once, outside the explored executions
+                let (edges, replicas) = job_graph(&prog, cfg);
                 let expected = reference(&input, &prog);
                 let downstream = downstream.clone();
                 let descr = s.descr.clone();
@@ -110,10 +113,28 @@ fn build(tier: Tier) -> Vec<Scenario> {
                     if panicked.is_empty() {
                         return Err(Fail::new("c20-failure-masked", format!("{descr}: a user function panicked but execute_blocking returned normally on every host")));
                     }
-                    if hosts > 1 && panicked.len() < hosts {
-                        // all our remote programs have every block on every host, so every host
-                        // runs something downstream of the failure
-                        return Err(Fail::new("c20-failure-masked-on-a-host", format!("{descr}: execute_blocking failed only on {:?}", panicked)));
+                    if hosts > 1 {
+                        // hosts that must fail: the one of the failed replica and those of every
+                        // replica of every block downstream of the failed block
+                        let fired_at = r.log.iter().find_map(|e| if let Ev::Note("fault-fired", v) = e { Some((v[0] as u64, v[1] as u64, v[2] as u64)) } else { None }).unwrap();
+                        // replicas reachable from the failed replica in the execution graph
+                        let mut need: std::collections::BTreeSet<u64> = std::collections::BTreeSet::new();
+                        let mut seen = vec![fired_at];
+                        let mut i = 0;
+                        while i < seen.len() {
+                            need.insert(seen[i].1);
+                            for (f, t) in &edges {
+                                if *f == seen[i] && !seen.contains(t) {
+                                    seen.push(*t);
+                                }
+                            }
+                            i += 1;
+                        }
+                        let _ = &replicas;
+                        let failed_hosts: std::collections::BTreeSet<u64> = panicked.iter().filter_map(|t| t.split(':').next().and_then(|x| x.parse().ok())).collect();
+                        if !need.is_subset(&failed_hosts) {
+                            return Err(Fail::new("c20-failure-masked-on-a-host", format!("{descr}: execute_blocking failed on hosts {:?} but hosts {:?} run the failed replica or something downstream of it", failed_hosts, need)));
+                        }
                     }
                     for i in &downstream {
                         let (n, rows) = sink_rows(&r.log, SINK_TAGS[*i]);
@@ -142,6 +163,19 @@ fn build(tier: Tier) -> Vec<Scenario> {
         }
     }
     out
+}
+
+/// (job graph edges, (block, host) of every replica) of the program in this configuration.
+#[allow(clippy::type_complexity)]
+fn job_graph(prog: &Program, cfg: &JobCfg) -> (Vec<((u64, u64, u64), (u64, u64, u64))>, Vec<(u64, u64)>) {
+    let env = cfg.layout.env(0);
+    let s = crate::kit::erase(env.stream_iter(vec![0i64].into_iter()));
+    let _outs = crate::program::build(s, prog);
+    let g = env.verif_execution_graph();
+    (
+        g.links.iter().map(|l| (l.0, l.1)).collect(),
+        g.blocks.iter().flat_map(|b| b.replicas.iter().map(move |r| (b.id, r.0 .1))).collect(),
+    )
 }
 
 pub fn spec() -> PropSpec {
